@@ -62,8 +62,8 @@ type Config struct {
 	ClientSkew     time.Duration
 	MaxSteps       uint64
 	NoClient       bool
-	BothTransports bool // server listens on TCP and UDP
-	SecondPort     bool // server also listens on ServerPort+1 (same transports)
+	BothTransports bool          // server listens on TCP and UDP
+	SecondPort     bool          // server also listens on ServerPort+1 (same transports)
 	DialDelay      time.Duration // the client's dials take this long
 	// RawMux: drive pkg/protocol.Mux directly (the layer the mieru/mita daemons use)
 	// instead of the apis/client + apis/server wrappers: no socks5 request/response is
@@ -455,7 +455,8 @@ func IsTimeout(err error) bool {
 	if te, ok := err.(interface{ Timeout() bool }); ok && te.Timeout() {
 		return true
 	}
-	return strings.Contains(err.Error(), "timeout")
+	// the stack's own timeout error (stderror.ErrTimeout, "TIMEOUT") has no Timeout method
+	return strings.Contains(strings.ToLower(err.Error()), "timeout")
 }
 
 var _ = io.EOF
